@@ -18,11 +18,11 @@ PickN(S, n) == UNION {IF n = 0 \/ Cardinality(SS) <= n THEN SS ELSE {RandomEleme
 \* (few of their instances carry a given dependency shape: sampling 40 of them left single-instance margins)
 InstancesOf(c) == IF c[1] = "combo" THEN Combos(NCombo, AllPlaces(Size))
                   ELSE IF NSample = 0 /\ c[1] \in Kinds /\ c[2] = "scoped" THEN Chunk(c) \cup SampleScopeds(c[1], NScoped)
-                  ELSE IF NSample = 0 \/ c[1] \in {"subimport", "include", "kindmix"} THEN Chunk(c)
+                  ELSE IF NSample = 0 \/ c[1] \in {"subimport", "include", "homonym"} THEN Chunk(c)
                   ELSE IF c[1] \in Kinds /\ c[2] = "twin" THEN SampleTwins(c[1], 3 * NSample)
                   ELSE IF c[1] \in Kinds /\ c[2] = "scoped" THEN SampleScopeds(c[1], NScoped)
                   ELSE IF c[1] \in Kinds THEN SampleDefs(c[1], c[2], AllPlaces(c[3]), NSample)
-                  ELSE PickN(Chunk(c), NSample)
+                  ELSE PickN(Chunk(c), IF c[1] \in {"kindmix", "illformed"} THEN 2 * NSample ELSE NSample)
 FileOf(c) == "cvec_" \o c[1] \o "_" \o c[2] \o ".ndjson"
 \* (the mechanism's variables are not used by the generator)
 GInit == /\ chunk \in GChunks /\ done = FALSE
